@@ -777,6 +777,7 @@ def do_history(col, item, uniq, tmp):
                 logger.removeHandler(h)
             gone = [id(h) for h in handlers]
             alive[:] = [h for h in alive if id(h) not in gone]
+            closed.difference_update(gone)      # ids may be reused
             dropped.add(k)
             facs[k] = (facs[k][0], None)    # the factory caches its product
             created[k] = (logger, [])
